@@ -15,6 +15,7 @@ import Retro.Model.TypeAlg
 import Retro.Spec.TypeCorpus
 import Std.Data.HashMap
 import Std.Data.HashSet
+import Retro.Spec.TypeFrontDoors
 
 namespace Retro.Drv.C10
 open Retro Retro.Drv Retro.TypeAlg
@@ -462,6 +463,12 @@ def progLine (p : Prog) : String :=
   let (v, c) := verdictWords p.v
   s!"prog {p.id} {v} {c} {encExpr p.e} {encodeSpaces (rsBody p.e)}"
 
+/-- Front-door programs outside the expression language (`Spec/TypeFrontDoors.lean`), in the `prog` line
+format with `raw:<k>` in the expression slot so that the harness treats them like any other program. -/
+def rawLines : List String :=
+  (TypeFrontDoors.frontDoors.zipIdx).map fun ((_, acc, cls, body), k) =>
+    s!"prog {950000 + k} {if acc then "accept" else "reject"} {cls} raw:{k} {encodeSpaces body}"
+
 /-! ### Verdicts -/
 
 /-- The rustc error codes that reject a program for a type / trait / visibility reason — exactly the
@@ -515,10 +522,28 @@ def handleLive (impl : List String) : Retro.Drv.Verdict :=
   if missing.isEmpty then Verdict.ok ["liveness"]
   else Verdict.mkDiff s!"no program using these API entries was accepted by rustc in this run: {missing}" ["liveness"]
 
-def handle (case impl : List String) : Retro.Drv.Verdict :=
-  match case with
-  | ["live"] => handleLive impl
-  | "prog" :: _id :: _v :: _c :: sx :: rest =>
+/-- A front-door program: the expected verdict comes from the table in `Spec/TypeFrontDoors.lean` (never
+from the case line); rustc accepting a listed misuse is a SPEC failure of the property, rustc rejecting a
+twin (or rejecting a misuse with a non-type error) breaks the correspondence. -/
+def handleRaw (k : Nat) (src : String) (impl : List String) : Retro.Drv.Verdict :=
+  match TypeFrontDoors.frontDoors[k]? with
+  | none => bad "front-door index"
+  | some (name, acc, cls, body) =>
+    let tags := ["front-door", name, if acc then "accept" else "reject:" ++ cls]
+    if src != body then Verdict.mkDiff s!"case source differs from the front-door table: {body}" tags
+    else
+    match impl with
+    | ["ok"] =>
+      if acc then Verdict.ok (tags ++ ["rustc-ok"])
+      else Verdict.mkSpec cls s!"compiles although it commits {cls} through a front door ({name}): {body}" (tags ++ ["rustc-ok"])
+    | "err" :: codes =>
+      let typeish := !codes.isEmpty && codes.all fun c => typeErrorCodes.contains c
+      if acc then Verdict.mkDiff s!"front-door twin {name} is rejected by rustc with {codes}: {body}" tags
+      else if typeish then Verdict.ok (tags ++ ["rustc-type-error"])
+      else Verdict.mkDiff s!"front-door program {name} is rejected with a non-type error {codes} (bad program text?): {body}" tags
+    | _ => bad "implementation output"
+
+def handleProg (sx : String) (rest impl : List String) : Retro.Drv.Verdict :=
     match decExpr sx with
     | none => bad "expression"
     | some e =>
@@ -553,6 +578,14 @@ def handle (case impl : List String) : Retro.Drv.Verdict :=
             Verdict.mkDiff s!"rustc rejects with {codes}, which the syntactic form of these API entries cannot produce (printer bug?): {rsExpr e}" tags.reverse
           else Verdict.mkDiff s!"rustc rejects with a non-type error {codes} (printer bug?): {rsExpr e}" tags.reverse
       | _ => bad "implementation output"
+
+def handle (case impl : List String) : Retro.Drv.Verdict :=
+  match case with
+  | ["live"] => handleLive impl
+  | "prog" :: _id :: _v :: _c :: sx :: rest =>
+    if sx.startsWith "raw:" then
+      handleRaw ((sx.drop 4).toNat?.getD 1000000) (decodeSpaces (rest.getD 0 "")) impl
+    else handleProg sx rest impl
   | _ => bad "unknown op"
 
 def emit (args : List String) : IO UInt32 := do
@@ -561,6 +594,8 @@ def emit (args : List String) : IO UInt32 := do
   let out ← IO.getStdout
   for p in select thorough seed do
     out.putStrLn (progLine p)
+  for l in rawLines do
+    out.putStrLn l
   return 0
 
 /-- The hand-written corpus of misuse / twin pairs as case lines (`corpus/C10/pairs.case`). -/
